@@ -1,2 +1,4 @@
 pub mod ds;
+pub mod img;
+pub mod rle;
 pub mod tree;
